@@ -51,6 +51,16 @@ def run(c, facts, tier):
             targ = [ts.get(x, x) for x in (parses[0]["targs"] if parses else [])]
             onparam = bool(parses) and f["k"] == "closure" and rx.is_var(parses[0]["recv"], rx.closure_params(f)[0].get("name"))
             plain = f["k"] == "closure" and rx.closure_body(f) is parses[0] if parses else False
+            f0 = rx.peel(f)
+            if not parses and f0.get("k") == "path" and f0["segs"][-2:] == ["str", "parse"]:
+                # the conversion named as a function: `.try_map(str::parse::<T>)`
+                targ = [ts.get(x, x) for x in (f0.get("gen") or [[]])[-1]]
+                onparam = plain = True
+            elif not parses and f0.get("k") == "path" and f0["segs"][-1] == "from_str" and len(f0["segs"]) >= 2:
+                # `.try_map(T::from_str)` / `<T as FromStr>::from_str`
+                t0 = f0["segs"][-2] if f0["segs"][-2] != "FromStr" else (f0.get("qself") or "")
+                targ = [ts.get(t0, t0)]
+                onparam = plain = True
             ok = st["t"] == "set" and st["cs"] == peg.cs_in("0123456789") and st["min"] >= 1 and st["max"] is None and targ == [ty] and onparam and plain
             det = "digit1.try_map(|s| s.parse::<%s>()) — digits %s, target type %s (field type %s), error propagated by try_map: %s" % (",".join(targ), peg.cs_show(st["cs"]) if st["t"] == "set" else "?", targ, ty, plain)
         elif body is not None:
